@@ -34,6 +34,9 @@ pub struct GateState {
     /// released / running, not yet exited
     pub running: Vec<GateId>,
     pub completed: u64,
+    /// every task ever seen (announce order) and the ones that ran to completion
+    pub all_ids: Vec<GateId>,
+    pub completed_ids: Vec<GateId>,
     pub controlled: bool,
     pub log: Vec<String>,
 }
@@ -52,7 +55,9 @@ pub fn gate_controller(state: Arc<Mutex<GateState>>) -> GateFn {
                 let mut s = state.lock().expect("gate state");
                 let seq = s.next_seq;
                 s.next_seq += 1;
-                s.announced.push_back(GateId { kind, key, seq });
+                let id = GateId { kind, key, seq };
+                s.all_ids.push(id.clone());
+                s.announced.push_back(id);
                 Box::pin(async {})
             }
             GateEvent::Enter(kind, key) => {
@@ -64,7 +69,9 @@ pub fn gate_controller(state: Arc<Mutex<GateState>>) -> GateFn {
                     None => {
                         let seq = s.next_seq;
                         s.next_seq += 1;
-                        GateId { kind, key, seq }
+                        let id = GateId { kind, key, seq };
+                        s.all_ids.push(id.clone());
+                        id
                     }
                 };
                 if s.controlled {
@@ -82,7 +89,8 @@ pub fn gate_controller(state: Arc<Mutex<GateState>>) -> GateFn {
             GateEvent::Exit(kind, key) => {
                 let mut s = state.lock().expect("gate state");
                 if let Some(p) = s.running.iter().position(|g| g.kind == kind && g.key == key) {
-                    s.running.remove(p);
+                    let id = s.running.remove(p);
+                    s.completed_ids.push(id);
                     s.completed += 1;
                 }
                 Box::pin(async {})
